@@ -28,6 +28,7 @@ func (e *Engine) LemmaObligations(l *Lemma) ([]*Obligation, []string) {
 	for _, h := range l.Hyps {
 		hyps = append(hyps, env.EvalBool(h.E))
 	}
+	hypLines := strings.Join(x.ctx.lines, "\n")
 	var out []*Obligation
 	for i, c := range l.Concl {
 		goal := env.EvalBool(c.E)
@@ -39,7 +40,7 @@ func (e *Engine) LemmaObligations(l *Lemma) ([]*Obligation, []string) {
 		out = append(out, &Obligation{Name: name, Func: "lemma:" + l.Name, Kind: "lemma", Src: c.Src, Query: q, Props: l.Props})
 	}
 	if len(hyps) > 0 {
-		q := prelude + strings.Join(x.ctx.lines, "\n") + "\n(assert " + And(hyps...) + ")\n"
+		q := prelude + hypLines + "\n(assert " + And(hyps...) + ")\n"
 		out = append(out, &Obligation{Name: "lemma:" + l.Name + "#vacuity", Func: "lemma:" + l.Name, Kind: "vacuity", Src: "hypotheses are satisfiable", Query: q, ExpectSat: true, Props: l.Props})
 	}
 	return out, x.errs
